@@ -8,7 +8,7 @@ from ..effects import Effects
 from ..hashrules import citation_classes, run_hash_rules, run_resource_rules
 from ..paths import enumerate_paths
 from ..typed import Typed
-from .c18 import rule_guess_edition
+from .c18 import rule_guess_edition, rule_merge_dedup
 
 
 def rule_placeholder_normalisation(ctx: Ctx):
@@ -146,6 +146,7 @@ def run(ctx: Ctx):
     ctx.guard(rule_placeholder_normalisation, ctx)
     ctx.guard(rule_normalisation_reached, ctx)
     ctx.guard(rule_guess_edition, ctx, "R-C16-5b")
+    ctx.guard(rule_merge_dedup, ctx, "R-C16-5c")
     ctx.floor("R-C16-H1", 10)
     ctx.floor("R-C16-H2", 3)
     ctx.floor("R-C16-H4", 4)
